@@ -2,6 +2,7 @@ import Svgbob.Proofs.Guard
 import Svgbob.Proofs.CircleFacts
 import Svgbob.Model.Doc
 import Svgbob.Proofs.Canvas
+import Svgbob.Proofs.SourceConstants
 /-!
 # C12 — the canvas has one cell of margin and contains everything that is drawn
 
@@ -136,5 +137,11 @@ theorem text_anchor_inside_cell (st : Cell) :
     st.x * 1000 ≤ a.x ∧ a.x ≤ (st.x + 1) * 1000 ∧ st.y * 2000 ≤ a.y ∧ a.y ≤ (st.y + 1) * 2000 := by
   simp only [cellTextAnchor, Cell.origin, Pt.add]
   refine ⟨?_, ?_, ?_, ?_⟩ <;> omega
+
+/-- the cell size the canvas formula and all coordinates of the model are built on is `CellGrid`'s now -/
+theorem cell_size_is_the_sources :
+    Gen.cellWidthMilli = 1000 ∧ Gen.cellHeightMilli = 2000 ∧ Gen.horizontalSlices = 4 ∧
+    Gen.verticalSlices = 8 ∧ (⟨1, 1⟩ : Cell).origin = ⟨Gen.cellWidthMilli, Gen.cellHeightMilli⟩ :=
+  cell_size_matches_source
 
 end Svgbob.C12
